@@ -103,6 +103,11 @@ pub fn alpha_beta_search(
         let mut local_context = context.clone();
         let local_depth = context.search_depth();
 
+        #[cfg(feature = "verif-hooks")]
+        crate::verif_hooks::emit(crate::verif_hooks::Event::TaskReady {
+            root_move: chess_move.to_uci(),
+        });
+
         chess_move.apply(&mut local_board).unwrap();
         local_board.toggle_turn();
 
@@ -121,6 +126,12 @@ pub fn alpha_beta_search(
 
         chess_move.undo(&mut local_board).unwrap();
         local_board.toggle_turn();
+
+        #[cfg(feature = "verif-hooks")]
+        crate::verif_hooks::emit(crate::verif_hooks::Event::TaskDone {
+            root_move: chess_move.to_uci(),
+            score,
+        });
 
         (score, chess_move.clone())
     });
@@ -159,6 +170,14 @@ fn alpha_beta_minimax(
     maximizing_player: bool,
 ) -> Result<i16, SearchError> {
     let search_node = (board.current_position_hash(), alpha, beta);
+    #[cfg(feature = "verif-hooks")]
+    crate::verif_hooks::emit(crate::verif_hooks::Event::Node {
+        key: search_node.0,
+        alpha,
+        beta,
+        depth,
+        maximizing: maximizing_player,
+    });
     if let Some(score) = check_cache(context, search_node) {
         trace!(
             "{}alpha_beta_minimax returning cached score: {} for depth: {}",
@@ -178,6 +197,8 @@ fn alpha_beta_minimax(
         maximizing_player
     );
 
+    #[cfg(feature = "verif-hooks")]
+    crate::verif_hooks::emit(crate::verif_hooks::Event::BeforeCounterBump);
     {
         let mut count = context.searched_position_count.write().unwrap();
         *count += 1;
@@ -266,11 +287,24 @@ fn alpha_beta_minimax(
 }
 
 fn set_cache(context: &mut SearchContext, search_node: SearchNode, score: i16) {
+    #[cfg(feature = "verif-hooks")]
+    crate::verif_hooks::emit(crate::verif_hooks::Event::BeforeCacheStore {
+        key: search_node.0,
+        alpha: search_node.1,
+        beta: search_node.2,
+        score,
+    });
     let mut cache = context.search_result_cache.write().unwrap();
     cache.insert(search_node, score);
 }
 
 fn check_cache(context: &mut SearchContext, search_node: SearchNode) -> Option<i16> {
+    #[cfg(feature = "verif-hooks")]
+    crate::verif_hooks::emit(crate::verif_hooks::Event::BeforeCacheRead {
+        key: search_node.0,
+        alpha: search_node.1,
+        beta: search_node.2,
+    });
     let cache = context.search_result_cache.read().unwrap();
     match cache.get(&search_node) {
         Some(&prev_best_score) => {
